@@ -56,6 +56,10 @@ CHECKS = {
    technique="stateful model-based property-based testing (rapid) of the real hybrid buffer with a harness-controlled consumer; invariants checked at every quiescent point",
    text="Histories of accept / consumer take+confirm / take+hold (handed back at its end) / stall / stop early / arm / destroy+restart run against the real hybridbuffer on one directory with memory windows of 2-8 and queue capacities of 4-64 chunks, size limits from half a chunk to ample, and an unusable queue directory. After every Destroy: each accepted chunk is confirmed with its file gone, or a byte-identical file, or counted in dropped_chunks_total (exactly); nothing is delivered twice or altered; delivery follows acceptance order with recovered chunks first; the files stay within maxBufSize plus the chunks handed back at that shutdown; Accept returns while the consumer stalls; once the in-memory window provably holds >= Max/2 chunks every further accepted chunk is unloaded or dropped.",
    note="Capacities are defs variables scaled down; a history in which more files are on disk at a start than the scaled queue capacity (production: 500 000) skips the size bound from there on. Concurrency between Accept, the feeder and the consumer callbacks is whatever the Go scheduler gives (8-16 processes, -race shards in thorough)."),
+ "C04": dict(engine="c04crash", category="fault_enumeration", design="§3 C04",
+   technique="fault enumeration with victim processes (RLIMIT_FSIZE-bounded writes and kill points) + property-based generation (rapid) of the remaining parameters, strict byte-identity oracle after restart",
+   text="A victim process (the harness binary re-executed) spills chunks through the real hybrid buffer with a memory window of 2 and suffers one fault while one chunk file is written: the write stops at byte k because of RLIMIT_FSIZE (error path: short write then EFBIG), the same followed by SIGKILL right after the partial write (crash mid-write at offset k), SIGKILL at the kill points after open / write / close / rename (hook H1), or the file is found empty at the next start. k is enumerated 0..size for sizes {1,7,48} (quick) or every size 1..48 (thorough) for the affected chunk first, in the middle and last; rapid adds sizes up to 200 KB. The parent restarts a buffer on the directory with a strict consumer: every delivered chunk must be byte-identical to a produced one, the affected chunk intact or absent (and counted as dropped when the victim survived), every other persisted chunk delivered.",
+   note="Only process death and failing/short syscalls are modelled; reordering or loss below the file system (no fsync model) is out of reach. The Go runtime does not let SIGXFSZ terminate the process, so the 'default action' variant is the same error path as the ignored one (kept as evidence). Damage to file contents that the agent itself cannot produce any more (external truncation to k>0) is undetectable without a checksum and is not claimed."),
 }
 
 NOT_YET = {}
